@@ -1,0 +1,26 @@
+//go:build verif
+
+// Machine-checked contracts for package pgptools (comment-only; see /verif/DESIGN.md).
+//
+// The helper goroutines below are verified as sequential code: what is proved is the protocol condition the
+// design relies on (the read end of the pipe is closed on every path, exactly one result is sent), not liveness.
+
+package pgptools
+
+//@ func DetachClearSign$1
+//@   property C11
+//@   ghost closed bool = false
+//@   ghost sent int = 0
+//@   on call (*io.PipeReader).CloseWithError(p, e) ret (x): closed = closed || p == atcall(readPipe)
+//@   before call builtin send(c, _): assert @the_pipe_is_released_before_the_result_is_handed_over closed && sent == 0 && c == done
+//@   on call builtin send(_, _) ret (): sent = sent + 1
+//@   ensures @one_result_sent_and_the_read_end_closed_on_every_path_so_the_signer_never_blocks_on_the_pipe sent == 1 && closed
+//@
+//@ func MergeClearSign$1
+//@   property C11
+//@   ghost closed bool = false
+//@   ghost sent int = 0
+//@   on call (*io.PipeReader).CloseWithError(p, e) ret (x): closed = closed || p == atcall(readPipe)
+//@   before call builtin send(c, _): assert @the_pipe_is_released_before_the_result_is_handed_over closed && sent == 0 && c == done
+//@   on call builtin send(_, _) ret (): sent = sent + 1
+//@   ensures @one_result_sent_and_the_read_end_closed_on_every_path_so_the_signer_never_blocks_on_the_pipe sent == 1 && closed
